@@ -10,7 +10,7 @@ for d in pfxdriver spkidriver mgrdriver bgpdriver ipdriver rtrdriver lockdriver 
   [ -f "$root.lean" ] && TARGETS="$TARGETS $d"
 done
 # the generated model parts are tied to the current source: regenerate them (each check does so again)
-(cd "$HERE" && python3 tools/gen_constants.py >/dev/null 2>&1 && python3 tools/gen_locks.py >/dev/null 2>&1) || \
+(cd "$HERE" && python3 tools/gen_constants.py >/dev/null 2>&1 && python3 tools/gen_locks.py >/dev/null 2>&1 && python3 tools/gen_cfuns.py >/dev/null 2>&1) || \
   echo "setup: a translator failed on the current source (the checks that depend on it will report it)"
 # a proof that no longer builds is a finding of the check that owns it, not a setup failure
 flock "$HERE/build/lake.lock" lake build RtrModel RtrProofs RtrProps || \
